@@ -35,8 +35,8 @@ from vlib.harness import Check, HarnessError, proc_tmp
 CHECK = Check(
     "C12",
     rule=(
-        "box_crop: one box (position +-10 / +-80 m, any yaw incl. multiples of pi/2, size 0.05..30 m, 1 in 6 with "
-        "|roll|,|pitch| <= 0.1) x three scales s <= s' <= s'' (0.1..3, equal or >= 1.001 apart) x cloud of 0..2000 "
+        "box_crop: one box (position +-10 / +-80 m, any yaw incl. multiples of pi/2, size 0.05..30 m, 1 in 5 with "
+        "|roll|,|pitch| <= 0.1 or <= 0.7) x three scales s <= s' <= s'' (0.1..3, equal or >= 1.001 apart) x cloud of 0..2000 "
         "rows (N x 3/4/5, float64 or float32) built relative to the box: inside, xy-outside, above, below, near a "
         "face, past a corner, rotated lattice, far clutter. prism_crop: convex / star-shaped polygons (3..12 "
         "vertices, CCW and CW, any start vertex, lower or upper plane first) with points along rays through the "
@@ -56,8 +56,9 @@ CHECK = Check(
         "1e-5 * max(1, |coordinate|)) is classified boundary and either answer is accepted",
         "distance for the scale factor: the docs say 'distance from vehicle to target bounding box' — a row whose "
         "decision differs between the 3D-norm and the BEV-norm reading is classified boundary",
-        "roll/pitch boxes: only partition, count consistency and scale monotonicity are asserted (the statement does "
-        "not say whether the footprint of a tilted box is its projection)",
+        "roll/pitch boxes: the scaled footprint is the orthogonal projection of the box's scaled base rectangle rotated "
+        "by the full orientation (the polygon get_footprint returns and the IoU of C06 uses); bottom and top are the "
+        "centre height -/+ h/2",
         "manager: the per-frame SensingFrameConfig, when given, carries the same scales and target_uuids as the "
         "manager's configuration (the manager pre-crops with its own scales); its threshold may differ and is the "
         "one that applies",
@@ -136,8 +137,9 @@ def one_box(draw, tilt=True):
         "size": draw(GEN.sizes()),
         "label": "car",
     }
-    if tilt and draw(st.integers(0, 5)) == 0:
-        o["pr"] = [draw(fl(-0.1, 0.1)), draw(fl(-0.1, 0.1))]
+    if tilt and draw(st.integers(0, 4)) == 0:
+        t = draw(st.sampled_from([0.1, 0.7, 0.7]))
+        o["pr"] = [draw(fl(-t, t)), draw(fl(-t, t))]
     return o
 
 
@@ -425,6 +427,24 @@ def _box_margin(b, s, row):
     return min(mxy, h / 2 - abs(row[2] - b["p"][2]))
 
 
+def _tilted_footprint(b, s):
+    """Footprint of a box with roll/pitch: the orthogonal projection of its scaled base rectangle, rotated by the full
+    orientation, onto the ground plane (a parallelogram) — the polygon C06 calls the box's footprint."""
+    w, l, _ = b["size"]
+    q = D.obj_quat(b)
+    out = []
+    for fx, fy in ((1, 1), (-1, 1), (-1, -1), (1, -1)):
+        v = G.q_rotate(q, (fx * s * l / 2, fy * s * w / 2, 0.0))
+        out.append((b["p"][0] + v[0], b["p"][1] + v[1]))
+    return out
+
+
+def _tilted_margin(b, s, row, poly):
+    d = G.dist_point_polygon_boundary((row[0], row[1]), poly)
+    mxy = d if G.point_in_polygon((row[0], row[1]), poly) else -d
+    return min(mxy, b["size"][2] / 2 - abs(row[2] - b["p"][2]))
+
+
 def _prism_margin(poly, z0, z1, row):
     d = G.dist_point_polygon_boundary((row[0], row[1]), poly)
     mxy = d if G.point_in_polygon((row[0], row[1]), poly) else -d
@@ -549,8 +569,10 @@ def box_crop(ctx, d):
         prev = (s, cin)
         # exact inside set against the reference
         if tilted:
-            continue
-        cls = [_cls_margin(_box_margin(b, s, r), mg) for r in rows]
+            poly = _tilted_footprint(b, s)
+            cls = [_cls_margin(_tilted_margin(b, s, r, poly), mg) for r in rows]
+        else:
+            cls = [_cls_margin(_box_margin(b, s, r), mg) for r in rows]
         nb = cls.count("unc")
         if nb:
             ctx.boundary()
